@@ -11,8 +11,12 @@ Definition pp_reset (p : pp) : pp :=
   | PLimit s => PLimit (LimitEmptyLines_reset s)
   end.
 
+(* `if len(line_pps) > 0: self._generate_with_line_buffer(...) else: for part in template_gen: output_file.write(part)` *)
 Definition gen_file (ps : list pp) (chunks : list str) : list pp * str :=
-  write_builtin (map pp_reset ps) chunks.
+  match ps with
+  | [] => ([], concat chunks)
+  | _ :: _ => write_builtin (map pp_reset ps) chunks
+  end.
 
 (* the files of one generator, in order; the processor objects (their state) are carried from file to file *)
 Fixpoint gen_files (ps : list pp) (files : list (list str)) : list str :=
